@@ -234,6 +234,10 @@ func runC02(c *Ctx) {
 	// ---- R02.3
 	c02Growth(c, ix, rows, hdr, cells, inTable, nCols, cols, resize)
 
+	// a row the library builds can hold cells unless it is a separator: Row.Add refuses rows whose cell storage
+	// is nil, so cells added to such a row would never be counted
+	c02RowStorage(c, row, cells)
+
 	// ---- R02.4
 	c02Lookup(c, ix, at, rows, cells, nCols, cols)
 
@@ -662,4 +666,64 @@ func fieldOfParam(p *prover, par *ssa.Parameter, name string) ssa.Value {
 		return par
 	}
 	return out
+}
+
+// c02RowStorage: every Row object allocated by the library either is marked a separator or has its cell storage
+// set to a non-nil slice before the function can return.
+func c02RowStorage(c *Ctx, row *types.Named, cells *types.Var) {
+	r := c.R
+	isSep := c.Field(row, "isSeparator")
+	n := 0
+	for _, fn := range c.LibFuncs() {
+		if funcPkgPath(fn) != modPath {
+			continue
+		}
+		eachInstr(fn, func(in ssa.Instruction) {
+			al, ok := in.(*ssa.Alloc)
+			if !ok || !al.Heap || namedOf(al.Type().(*types.Pointer).Elem()) != row {
+				return
+			}
+			n++
+			sep, stored := false, false
+			for _, rr := range referrersOf(al) {
+				fa, isFA := rr.(*ssa.FieldAddr)
+				if !isFA {
+					continue
+				}
+				f := row.Underlying().(*types.Struct).Field(fa.Field)
+				for _, r2 := range referrersOf(fa) {
+					st, isSt := r2.(*ssa.Store)
+					if !isSt || st.Addr != ssa.Value(fa) {
+						continue
+					}
+					if f == isSep {
+						if b, isB := constBool(st.Val); isB && b {
+							sep = true
+						}
+					}
+					if f == cells && !isNil(st.Val) {
+						nonNil := false
+						switch x := st.Val.(type) {
+						case *ssa.MakeSlice:
+							nonNil = true
+						case *ssa.Slice:
+							_, nonNil = x.X.(*ssa.Alloc)
+						}
+						all := true
+						for _, ret := range returnsOf(fn) {
+							if !instrDominates(st, ret) {
+								all = false
+							}
+						}
+						if nonNil && all {
+							stored = true
+						}
+					}
+				}
+			}
+			r.Check("R02.3", FuncName(fn), fmt.Sprintf("row built here (#%d) is a separator or has non-nil cell storage on every path", n), al.Pos(), sep || stored,
+				"a row without cell storage refuses every cell added to it: those cells are never counted or addressable")
+		})
+	}
+	r.Floor("R02.3", "rows built by the library", n, 1)
 }
